@@ -427,6 +427,7 @@ func scenarioC14(c *Ctx) {
 		// the two sequential orders are differential cases for the model
 		base.Close()
 	}
+	c14Reset(c, fail)
 	c.Notes["schedules_explored"] = explored
 	c.Notes["max_context_switches"] = switches
 	c.Case("pairs", true, fmt.Sprintf("skip c14 %d pairs", len(pairs)), fmt.Sprintf("skip c14 %d pairs", len(pairs)))
